@@ -370,7 +370,8 @@ class NetNode:
         p0f = self.radio.user_pipe0_field()
         from .c08 import pin_addr
         pin_addr(self.radio, st, 0x0A, own_p0)
-        st.heap[self.radio.ref.ident].fields[p0f] = Bytes([(("const", own_p0), Const(5))], "bytes")
+        # _begin() hands the radio a bytearray produced by _pipe_address(): a mutable heap object, so stored references can be seen
+        st.heap[self.radio.ref.ident].fields[p0f] = st.alloc("bytearray", items=[Const(b) for b in own_p0], label="own_p0")
         node = st.alloc("obj", cls=self.cls, label="node")
         cell = st.heap[node.ident]
         cell.fields["_rf24"] = self.radio.ref
